@@ -1527,7 +1527,9 @@ func (e *specEnv) call(n *ast.CallExpr) Term {
 			return mkAnd(e.now.get("G$called$"+a, SBool), e.now.get("G$called$"+b, SBool),
 				ult(e.now.get("G$seq$"+a, SBV64), e.now.get("G$seq$"+b, SBV64)))
 		case "held":
-			return e.st().get("G$held$"+e.strArg(n.Args[0]), SBool)
+			mn := canonMutexName(e.strArg(n.Args[0]))
+			e.f.vc.heldAsked(mn)
+			return e.st().get("G$held$"+mn, SBool)
 		case "retBool", "retErr", "retBytes", "retInt", "retU64", "retAny", "argBool", "argErr", "argBytes", "argInt", "argU64", "argAny":
 			kind := "ret"
 			if strings.HasPrefix(id.Name, "arg") {
